@@ -267,7 +267,7 @@ fn make_prot(node: &'static crate::debt::Node, obj: usize) -> (HybridProtection<
 //          debt Some(s), s paid/re-used   => s untouched, delta strong = -1 (the writer's increment)
 // frame:   no other slot, no other object's count; at most one atomic step (a CAS on the guard's
 //          own slot); no thread-local access (C10: droppable anywhere).
-// @harness name=l1_prot_drop props=C02,C10,C01,C08 tier=quick flavour=nostd fn=HybridProtection::drop+Debt::pay
+// @harness name=l1_prot_drop props=C02,C10,C01,C08,C14 tier=quick flavour=nostd fn=HybridProtection::drop+Debt::pay
 #[cfg_attr(kani, kani::proof)]
 #[cfg_attr(kani, kani::unwind(12))]
 pub(crate) fn l1_prot_drop() {
@@ -325,7 +325,7 @@ pub(crate) fn l1_prot_drop() {
 //          debt None                    => delta strong = 0
 //          debt Some(s), s held ptr     => s' = NONE, delta strong = +1
 //          debt Some(s), s paid/re-used => s untouched, delta strong = 0 (+1 then -1: the writer's increment is the one kept)
-// @harness name=l1_prot_into_inner props=C02,C10,C01,C08 tier=quick flavour=nostd fn=HybridProtection::into_inner+Debt::pay
+// @harness name=l1_prot_into_inner props=C02,C10,C01,C08,C14 tier=quick flavour=nostd fn=HybridProtection::into_inner+Debt::pay
 #[cfg_attr(kani, kani::proof)]
 #[cfg_attr(kani, kani::unwind(12))]
 pub(crate) fn l1_prot_into_inner() {
